@@ -218,8 +218,14 @@ def set_order(mod, exporter) -> list:
         rt = exporter._collect_objects(mod)
     except Exception:  # noqa: BLE001
         return []
-    return [{"type": k, "defs": [{"def": None if ad.modelobj is None else ad.modelobj.uuid, "kind": ad.type} for ad in ads]}
-            for k, ads in rt.items()]
+    try:
+        return [{"type": k, "defs": [{"def": None if ad.modelobj is None else ad.modelobj.uuid, "kind": ad.type} for ad in ads]}
+                for k, ads in rt.items()]
+    except (AttributeError, TypeError, ValueError):
+        # the private helper no longer returns a mapping type-uuid -> set of definitions (internal refactoring): the
+        # order parameter is unavailable, exactly as when the helper raises; the monitor and the document-level
+        # correspondence do not depend on it
+        return []
 
 
 def all_reqs(desc: dict) -> list[dict]:
